@@ -1157,6 +1157,10 @@ class Model:
                 continue
             if var.v_setter is True:
                 continue
+            if var.v_str_add is True:
+                # the local copy was initialized on top of the value collected from the DAE array
+                # and holds the total: it is a setter, adding it again would count the other part twice
+                continue
 
             out[name] = var
         return out
@@ -1168,7 +1172,7 @@ class Model:
                 continue
             if var.v_str is None and var.v_iter is None:
                 continue
-            if var.v_setter is False:
+            if var.v_setter is False and var.v_str_add is not True:
                 continue
 
             out[name] = var
